@@ -404,7 +404,8 @@ class Result:
             path = os.path.join(rdir, f"{h}.json")
             with open(path, "w") as f:
                 json.dump({"property": self.prop, "class": cls, "fields": fields, "detail": detail}, f, indent=1)
-            print(f"VIOLATION property={self.prop} replay={path}  class={cls}")
+            print(f"violation-class: property={self.prop} class={cls} fields={json.dumps(fields, sort_keys=True)[:300]}")
+            print(f"VIOLATION property={self.prop} replay={path}")
             rc = 1
         cov = {
             "states": self.states,
